@@ -186,7 +186,8 @@ def checkEqualityIfNoSideEffects (left right : Expr) (strict : Bool) : Bool × B
     | r => if strict && isPrimitiveLiteral r then (false, true) else (false, false)
   | _ => (false, false)
 
-/-- Go compares `a.Op == b.Op`; the typeof flag is not part of the op code -/
+/-- same `EUnary.Op` (the typeof flag is not part of the op code); ValuesLookTheSame compares the flag as well
+(since the fix "typeof x and typeof (0, x) do not look the same"), so it uses `==` on `UnOp` instead -/
 def sameUnOp : UnOp → UnOp → Bool
   | .typeof _, .typeof _ => true
   | a, b => a == b
@@ -220,7 +221,7 @@ def valuesLookTheSame : Expr → Expr → Bool
     | _ => false
   | .unary opa va, r =>
     match r with
-    | .unary opb vb => sameUnOp opa opb && valuesLookTheSame va vb
+    | .unary opb vb => opa == opb && valuesLookTheSame va vb   -- Op and WasOriginallyTypeofIdentifier
     | _ => false
   | .binary opa la ra, r =>
     match r with
